@@ -37,6 +37,20 @@ def keys_wf(m: ty.MapV):
                   patterns=[z3.Select(m.dom, x)]))
 
 
+def assume_map_wf(st, m: ty.MapV):
+    """Type invariant of the ordered-map sort (A-LIB): a Python dict / OrderedDict value is always well-formed - its key list
+    enumerates its domain without repetition.  Assumed whenever such a value is read from the heap or produced by a modelled
+    dict operation (once per key array)."""
+    if m.keys is None:
+        return
+    seen = st.ghost.setdefault("__mapwf__", set())
+    key = (m.keys.arrs[0].get_id(), m.dom.get_id(), m.keys.len.get_id())
+    if key in seen:
+        return
+    seen.add(key)
+    st.assume(keys_wf(m))
+
+
 def values_seq(m: ty.MapV):
     if m.keys is None:
         raise _U("values() of an unordered symbolic map")
@@ -98,6 +112,7 @@ def mutate(ex, st, recv: ty.MapV, meth, args, kwargs, node):
             v = recv.at(k)
             ex.assume_wf(s2, recv.val, v)
             new = ty.MapV(recv.key, recv.val, z3.Store(recv.dom, k, z3.BoolVal(False)), recv.arrs, keys)
+            assume_map_wf(s2, new)
             out.append((new, (k, v), s2, None))
         return out
     if meth == "pop":
@@ -114,8 +129,26 @@ def mutate(ex, st, recv: ty.MapV, meth, args, kwargs, node):
             keys = seq_remove_value(ex, s2, recv.keys, kc) if recv.keys is not None else None
             v = recv.at(k)
             ex.assume_wf(s2, recv.val, v)
-            out.append((ty.MapV(recv.key, recv.val, z3.Store(recv.dom, kc, z3.BoolVal(False)), recv.arrs, keys), v, s2, None))
+            new = ty.MapV(recv.key, recv.val, z3.Store(recv.dom, kc, z3.BoolVal(False)), recv.arrs, keys)
+            assume_map_wf(s2, new)
+            out.append((new, v, s2, None))
         return out
     if meth == "move_to_end":
-        raise _U("move_to_end", node)
+        # OrderedDict.move_to_end(key, last=True): KeyError if absent; otherwise the key leaves its place and is appended
+        last = kwargs.get("last", args[1] if len(args) > 1 else True)
+        if recv.keys is None or last is not True:
+            raise _U("move_to_end on unordered map / last != True", node)
+        k = ex.coerce(recv.key, args[0], node)
+        (kc,) = ty.pack(recv.key, k)
+        out = []
+        for taken, s2 in ex.branch(st, recv.has(k), f"has@L{ln}"):
+            if not taken:
+                out.append((recv, None, s2, ExcV("KeyError", ln)))
+                continue
+            rem = seq_remove_value(ex, s2, recv.keys, kc)
+            keys = ty.SeqV(rem.elem, [z3.Store(rem.arrs[0], rem.len, kc)], rem.len + 1)
+            new = ty.MapV(recv.key, recv.val, recv.dom, recv.arrs, keys)
+            assume_map_wf(s2, new)
+            out.append((new, None, s2, None))
+        return out
     raise _U(f"method .{meth} on symbolic map", node)
